@@ -56,7 +56,7 @@ CONSTANTS
   MaxDepth,   \* live frames per thread
   MaxItems,   \* items yielded per generator (0 = unbounded, trace validation only)
   Variant,    \* "property" | "pinned" | "union"
-  Transient   \* TRUE: setlocale may fail for an installed locale as well
+  Transient   \* TRUE: setlocale may fail for an installed locale as well, or raise another exception
 
 VARIABLES inst, lc0, lc, owner, frames, calls
 vars == <<inst, lc0, lc, owner, frames, calls>>
@@ -228,6 +228,9 @@ SetLocale(t, res) ==   \* locale.setlocale(LC_COLLATE, self.lc_collate)
           \/ /\ res = "fail" /\ (Loc(f.c) \notin inst \/ Transient)
              /\ lc' = lc
              /\ SetF(t, r, [f EXCEPT !.pc = IF HasFb(f.c) THEN "fb" ELSE "fail"])
+          \/ /\ res = "crash" /\ Transient     \* setlocale raises something that is NOT locale.Error
+             /\ lc' = lc                        \* (ValueError: embedded null character for a collation
+             /\ SetF(t, r, [f EXCEPT !.pc = "fail2"])   \* string with a NUL): no fallback is tried
   /\ UNCHANGED <<inst, lc0, owner, calls>>
 
 Fallback(t, res) ==    \* locale.setlocale(LC_COLLATE, 'en_US.UTF-8')
@@ -344,7 +347,7 @@ Abandon(t, i) ==     \* the consumer drops the generator: GeneratorExit runs __e
 (* everything a thread does once it has been called (the obligations of fairness) *)
 ThreadStep(t) ==
   \/ EvalArgs(t) \/ LeaveHolding(t) \/ Recurse(t) \/ ReenterHolding(t) \/ ResumeLazy(t) \/ ArgError(t) \/ Enter0(t) \/ Acquire(t) \/ ReadCurrent(t)
-  \/ \E res \in {"ok", "fail"} : SetLocale(t, res)
+  \/ \E res \in {"ok", "fail", "crash"} : SetLocale(t, res)
   \/ \E res \in {"ok", "fail"} : Fallback(t, res)
   \/ RaiseFromEnter(t) \/ LeakRaise(t) \/ Exit(t) \/ ExitGen(t) \/ Unwind(t)
   \/ YieldHolding(t) \/ Yield(t) \/ Return(t)
@@ -364,7 +367,7 @@ Next ==
   \/ \E t \in Threads : Enter0(t)
   \/ \E t \in Threads : Acquire(t)
   \/ \E t \in Threads : ReadCurrent(t)
-  \/ \E t \in Threads, res \in {"ok", "fail"} : SetLocale(t, res)
+  \/ \E t \in Threads, res \in {"ok", "fail", "crash"} : SetLocale(t, res)
   \/ \E t \in Threads, res \in {"ok", "fail"} : Fallback(t, res)
   \/ \E t \in Threads : RaiseFromEnter(t)
   \/ \E t \in Threads : LeakRaise(t)
